@@ -485,7 +485,7 @@ def run_tls(case: dict):
     import asyncio
     import ssl
 
-    from vlib import memnet, stacks
+    from vlib import certs, memnet, stacks
 
     setup_logging()
     data = s2b(case["data"])
@@ -502,7 +502,8 @@ def run_tls(case: dict):
         up = srvsim.build_upload(sim, case["upload"])
         factory, sslctx = stacks.manual_stack(backend, handler, mw, up)
         v = ssl.TLSVersion.TLSv1_2 if case.get("tls") == "1.2" else ssl.TLSVersion.TLSv1_3
-        conn = memnet.ServerConn(loop, factory, sslctx, memnet.permissive_client_ctx(minv=v, maxv=v), auto_close=False, peername=(case.get("peer", "192.0.2.7"), 40000))
+        conn = memnet.ServerConn(loop, factory, sslctx, memnet.permissive_client_ctx(minv=v, maxv=v, cert=certs.get(case["ccert"]) if case.get("ccert") else None),
+                                 auto_close=False, peername=(case.get("peer", "192.0.2.7"), 40000))
         if not await conn.handshake():
             return sim, conn, {"disconnected": False, "trace": ["handshake-failed"]}
         if case.get("slow_reader"):
@@ -590,6 +591,9 @@ def tls_case_st(draw):
         c["think"] = 0  # one source of delay at a time: a peer that reads nothing for minutes is aborted by asyncio itself
     c["tls"] = draw(st.sampled_from(["1.3", "1.3", "1.2"]))
     c["schedule"] = []
+    # the client's own certificate (only the PyOpenSSL stack asks for one): none, ordinary, a chain, or a subject
+    # without commonName / without any name at all
+    c["ccert"] = draw(st.sampled_from([None, None, None, "ec-a", "ed-a", "chain:ec-b:ec-a", "ec-nocn", "ec-nosubject"]))
     return c
 
 
